@@ -111,6 +111,42 @@ fn laws(ctx: &mut Ctx) {
             }]
         }
         let depth = g.rng.below(4);
+        if i % 4 == 3 {
+            // SHADOW: a name re-bound by assign / capture / a loop variable hides the caller's datum of
+            // that name completely — also the sub-paths that only the caller's value has
+            let mut d2 = Object::new();
+            let mut inner = Object::new();
+            inner.insert("k".into(), Value::scalar("OUTER"));
+            inner.insert("n".into(), Value::Array(vec![Value::scalar(1i64), Value::scalar(2i64)]));
+            d2.insert(x.clone().into(), Value::Object(inner));
+            let rebind = match g.rng.below(3) {
+                0 => vec![Node::Assign(x.clone(), lit_s("mine"), vec![])],
+                1 => vec![Node::Capture(x.clone(), vec![text("mine")])],
+                _ => vec![],
+            };
+            let probe = |p: Expr| Node::Cond { c: Cond::Exist(p), mode: true, thn: vec![text("LEAK")], els: Some(vec![text("hidden")]), elsif: false };
+            let probes = vec![probe(path(&x, &["k"])), probe(path(&x, &["n"])), probe(Expr::Var(x.clone(), vec![lit_s("k")])), probe(path(&x, &["n", "first"]))];
+            let mut t = Vec::new();
+            let expect;
+            if rebind.is_empty() {
+                // loop variable shadows inside the loop
+                t.push(Node::For { x: x.clone(), rng: RangeE::Counted(lit_i(1), lit_i(1)), limit: None, offset: None, rev: false, body: { let mut b = vec![text(M)]; b.extend(probes.clone()); b }, els: None });
+                expect = "hiddenhiddenhiddenhidden".to_string();
+            } else {
+                t.extend(wrap_ctx(&mut g, &names, rebind, depth));
+                t.push(text(M));
+                t.extend(probes.clone());
+                expect = "hiddenhiddenhiddenhidden".to_string();
+            }
+            let obs = render_text(&parser, &src_tmpl(&t), &d2);
+            let ok = match &obs {
+                Obs::Ok(s) => s.rfind(M).map(|p| s[p + M.len()..] == expect).unwrap_or(false),
+                _ => false,
+            };
+            let k = if ok { "law".to_string() } else { format!("SHADOW:want={}", crate::proto::hex(&expect)) };
+            ctx.emit(render_case("c04", &k, &t, &d2, &partials, &obs));
+            continue;
+        }
         let (kind, t, expect): (&str, Vec<Node>, String) = match i % 3 {
             0 => {
                 // PERSIST: the value assigned last is what the top level reads
